@@ -288,7 +288,7 @@ Definition sstep (ps : list (expr * string)) (s s' : cstate) : Prop :=
   /\ mono s s' /\ cs_declared s' = cs_declared s.
 
 Lemma noerr_back s s' : mono s s' -> noerr s' -> noerr s.
-Proof. unfold mono, noerr. lia. Qed.
+Proof. rewrite mono_le. unfold noerr. lia. Qed.
 
 Lemma sstep_of_same s s' : vsame s s' -> sstep [] s s'.
 Proof. intros (_ & B & _ & D). repeat split; [intros vs _ _ p []|exact D|exact B]. Qed.
@@ -299,7 +299,7 @@ Proof.
   - intros vs Hn He p Hp. apply in_app_or in Hp. destruct Hp as [Hp|Hp].
     + exact (A1 vs (noerr_back _ _ M2 Hn) He p Hp).
     + refine (A2 vs Hn _ p Hp). now rewrite D1.
-  - exact (Nat.le_trans _ _ _ M1 M2).
+  - exact (mono_trans _ _ _ M1 M2).
   - congruence.
 Qed.
 
@@ -870,13 +870,13 @@ Proof.
   assert (Hn3 : noerr s3) by exact Hn.
   (* the type is allowed *)
   assert (M13 : mono s1 s3 /\ cs_declared s3 = cs_declared s1).
-  { destruct (vd_origin d) as [f|]; [|injection E3 as <-; split; [apply le_n|reflexivity]].
+  { destruct (vd_origin d) as [f|]; [|injection E3 as <-; split; [apply mono_same_diags; reflexivity|reflexivity]].
     match type of E3 with (bind ?m _) = _ => destruct m as [s2| |] eqn:E2 end; cbn [bind] in E3; try discriminate.
     pose proof (vstep_fncall _ _ _ _ E3) as (_ & D & _ & M).
     assert (V : vsame s1 s2).
     { revert E2. destruct (find_builtin (fc_caller f)) as [b|]; [destruct (b_ctx b)|]; try (intros E2; injection E2 as <-; apply vsame_refl).
       intros E2. eapply vsame_trans; [apply vsame_add_fnres|exact (vsame_assert _ _ _ _ _ E2)]. }
-    destruct V as (_ & D2 & _ & M2). split; [exact (Nat.le_trans _ _ _ M2 M)|congruence]. }
+    destruct V as (_ & D2 & _ & M2). split; [exact (mono_trans _ _ _ M2 M)|congruence]. }
   destruct M13 as [M13 D13].
   assert (Hallowed : is_type_allowed ty = true).
   { destruct (is_type_allowed ty) eqn:Ea; [reflexivity|]. exfalso. unfold s1 in M13.
@@ -922,23 +922,23 @@ Proof.
   match type of H with (bind ?m _) = _ => destruct m as [s3| |] eqn:E3 end; cbn [bind] in H; try discriminate.
   injection H as <-.
   assert (M1 : mono s (match vd_type d with Some (r, t) => if is_type_allowed t then s else emit r (DInvalidType t) s | None => s end)).
-  { destruct (vd_type d) as [[r t]|]; [destruct (is_type_allowed t); [apply le_n|apply mono_emit]|apply le_n]. }
+  { destruct (vd_type d) as [[r t]|]; [destruct (is_type_allowed t); [apply mono_same_diags; reflexivity|apply mono_emit]|apply mono_same_diags; reflexivity]. }
   assert (M2 : mono (match vd_type d with Some (r, t) => if is_type_allowed t then s else emit r (DInvalidType t) s | None => s end) s3).
-  { destruct (vd_origin d) as [f|]; [|injection E3 as <-; apply le_n].
+  { destruct (vd_origin d) as [f|]; [|injection E3 as <-; apply mono_same_diags; reflexivity].
     match type of E3 with (bind ?m _) = _ => destruct m as [s2| |] eqn:E2 end; cbn [bind] in E3; try discriminate.
-    refine (Nat.le_trans _ _ _ _ (mono_fncall _ _ _ _ E3)).
-    revert E2. destruct (find_builtin (fc_caller f)) as [b|]; [destruct (b_ctx b)|]; try (intros E2; injection E2 as <-; apply le_n).
-    destruct (vd_name d) as [[rn nm]|]; [destruct (vd_type d) as [[rt ty]|]|]; try (intros E2; injection E2 as <-; apply le_n).
+    refine (mono_trans _ _ _ _ (mono_fncall _ _ _ _ E3)).
+    revert E2. destruct (find_builtin (fc_caller f)) as [b|]; [destruct (b_ctx b)|]; try (intros E2; injection E2 as <-; apply mono_same_diags; reflexivity).
+    destruct (vd_name d) as [[rn nm]|]; [destruct (vd_type d) as [[rt ty]|]|]; try (intros E2; injection E2 as <-; apply mono_same_diags; reflexivity).
     intros E2. destruct (vsame_assert _ _ _ _ _ E2) as (_ & _ & _ & M). exact M. }
-  refine (Nat.le_trans _ _ _ (Nat.le_trans _ _ _ M1 M2) _).
-  destruct (vd_name d) as [[r name]|]; [|apply le_n]. destruct (amem name (cs_declared s3)); [apply mono_emit|apply le_n].
+  refine (mono_trans _ _ _ (mono_trans _ _ _ M1 M2) _).
+  destruct (vd_name d) as [[r name]|]; [|apply mono_same_diags; reflexivity]. destruct (amem name (cs_declared s3)); [apply mono_emit|apply mono_same_diags; reflexivity].
 Qed.
 
 Lemma mono_var_decls : forall ds s s', check_var_decls ds s = Ok s' -> mono s s'.
 Proof.
-  induction ds as [|d ds IH]; intros s s' H; cbn [check_var_decls] in H; [injection H as <-; apply le_n|].
+  induction ds as [|d ds IH]; intros s s' H; cbn [check_var_decls] in H; [injection H as <-; apply mono_refl|].
   destruct (check_var_decl d s) as [s1| |] eqn:E; cbn [bind] in H; try discriminate.
-  exact (Nat.le_trans _ _ _ (mono_var_decl _ _ _ E) (IH _ _ H)).
+  exact (mono_trans _ _ _ (mono_var_decl _ _ _ E) (IH _ _ H)).
 Qed.
 
 Lemma vars_sound sb flag raw : forall ds s s' vs rs,
